@@ -10,7 +10,10 @@ TInit == l = 1
 TReset == IsEvent("Reset")
 TPred == IsEvent("Pred") /\ Pred(Ev.args, Ev.res)
 TMeasure == IsEvent("Measure") /\ Measure(Ev.args, Ev.res)
-TraceNext == TReset \/ TPred \/ TMeasure
+THilbert == IsEvent("Hilbert") /\ Hilbert(Ev.args, Ev.res)
+TOrder == IsEvent("Order") /\ Order(Ev.args, Ev.res)
+TDedup == IsEvent("Dedup") /\ Dedup(Ev.args, Ev.res)
+TraceNext == TReset \/ TPred \/ TMeasure \/ THilbert \/ TOrder \/ TDedup
 TraceSpec == TInit /\ [][TraceNext]_l
 TraceAccepted ==
   LET d == TLCGet("stats").diameter IN
